@@ -985,7 +985,7 @@ def run_persist_case(case):
     def prefix(loader):
         return "" if loader == "Network" else loader + "."
 
-    def check_loaded(path, loader, net, fmt, exp, a_exp, na_exp, wtol, grid=True):
+    def check_loaded(path, loader, net, fmt, exp, a_exp, na_exp, wtol, grid=True, natol=0.0):
         """All fields of the property on a loaded object.  gml: attribute names with '_' are not
         demanded; the loss of the weights keeps the stable name of the loading class."""
         a_fmt = {k: v for k, v in a_exp.items() if fmt != "gml" or k.isalnum()}
@@ -1000,7 +1000,7 @@ def run_persist_case(case):
                    if x[0].endswith("/node_weights") else x for x in sub]
         fails.extend(sub)
         check_node_attrs(fails, f"{path}/node_attribute", None, net, na_fmt,
-                         0.0 if fmt == "pickle" else TEXT_RTOL)
+                         max(natol, 0.0 if fmt == "pickle" else TEXT_RTOL))
         if grid and loader != "Network":
             grid_ok(f"{path}/grid", net.grid, grid_cls)
         if loader == "ClimateNetwork":
@@ -1047,7 +1047,7 @@ def run_persist_case(case):
                 return ClimateNetwork.Load(tuple(fn), silence_level=3, **kwd)
             return CLS[loader].Load(tuple(fn[:2]), silence_level=3, **kwd)
 
-        def round_trip(name, src, fmt, exp, a_exp, na_exp, wtol, loaders=None):
+        def round_trip(name, src, fmt, exp, a_exp, na_exp, wtol, loaders=None, natol=0.0):
             """save src, load it with its own class (path `name`) and with all parent classes
             (path `<cls>.save><Loader>.Load[...]`), compare."""
             explicit = bool(rs.randint(2))
@@ -1068,7 +1068,7 @@ def run_persist_case(case):
                     else:
                         fails.append((f"{path}/raises", f"{type(e).__name__}: {e}"))
                     continue
-                check_loaded(path, loader, net, fmt, exp, a_exp, na_exp, tol)
+                check_loaded(path, loader, net, fmt, exp, a_exp, na_exp, tol, natol=natol)
                 if loader == cls:
                     own = net
             if clim:
@@ -1345,7 +1345,7 @@ def run_persist_case(case):
                     return
                 mid.node_weights = w_alt
                 round_trip(f"{cls}.mutate_save_load[loaded_then_node_weights]", mid, next_fmt(),
-                           expected(A, directed, w_alt), attrs, nattrs, TEXT_RTOL)
+                           expected(A, directed, w_alt), attrs, nattrs, TEXT_RTOL, natol=TEXT_RTOL)
             guarded(f"{cls}.mutate_save_load[loaded_then_node_weights]", m_loaded)
     finally:
         shutil.rmtree(tmp, ignore_errors=True)
@@ -1617,15 +1617,49 @@ SCOPE = ("all labelled undirected graphs n<=4 (quick) / n<=5 (thorough) incl. n=
          "save->Load graphml/graphmlz/pickle/gml (+ twice), 24 / 200 SpatialNetwork/GeoNetwork "
          "cases with grids (init, edge list, set_node_weight_type, save->Load x4). Tolerances: "
          "exact for in-memory paths and pickle; rtol 1e-12 for text formats (15 significant "
-         "digits written); 1e-5 for float32 grid quantities (cos lat weights, coordinates).")
+         "digits written); 1e-5 for float32 grid quantities (cos lat weights, coordinates). "
+         "Persistence block: node attributes (float / int / name with '_') of every Network case through "
+         "all four formats (+ del_node_attribute); 10+12+16 (quick) / 60+60+80 (thorough) SpatialNetwork / "
+         "GeoNetwork / ClimateNetwork cases, n<=8 / n<=14 incl. n=1, edgeless, single link, isolated nodes, "
+         "complete, directed, irregular clustered coordinates, irregular time axes, explicit or geographic "
+         "node weights, two link attributes, three node attributes; ClimateNetwork from signed (a)symmetric "
+         "similarity matrices with non-default thresholds (kept 5e-4 away from every plain or distance-"
+         "weighted similarity value) and non_local on/off; each saved in graphml/graphmlz/pickle/gml with "
+         "grid pickle and similarity dump and read with its own Load and the Load of every parent class; "
+         "companion file names None; Grid/GeoGrid.save->Load, GeoGrid.save_txt->LoadTXT (+ GeoNetwork on the "
+         "text-file grid, geographic weights recomputed); save_for_cgv graphml/graphmlz read back (lat, lon, "
+         "ang_dist vs. an independent great-circle formula, |cos| error <= 2e-6), graphviz statement count; "
+         "save after node_weights / set_node_weight_type / link and node attribute changes / overwrite of the "
+         "same files / adjacency.setter / set_edge_list / set_threshold / set_non_local; similarity matrices "
+         "rtol 1e-6 (float32).")
+SKIPPED = (
+    "ClimateNetwork.threshold(), non_local() and node_weight_type are written to none of the three files "
+    "that save() documents (network file, GeoGrid, similarity matrix), so they are not compared after Load; "
+    "instead a ClimateNetwork generated from the loaded grid and similarity matrix with the original "
+    "threshold / non_local settings must be the original network (check .../rethreshold)",
+    "ClimateNetwork.Load raises on every input in the current tree (ClimateNetwork.Load/raises); the files "
+    "written by ClimateNetwork.save are therefore additionally read with GeoNetwork.Load / "
+    "SpatialNetwork.Load / Network.Load and numpy",
+    "gml: igraph strips '_' from attribute names, link / node attributes named with '_' are not demanded "
+    "for gml; the loss of node_weight_nsi keeps the names *save_load[gml]/node_weights",
+    "fileformat='pickle' pickles the igraph object only (not the pyunicorn object); Grid pickles hold the "
+    "grid object: boundaries() and silence_level of a loaded grid are not compared",
+    "save_for_cgv: node weights are not documented to be stored and are not compared; the graphviz output "
+    "cannot be read by igraph, only the number of link statements and the graph type are checked",
+    "GeoGrid.save_txt -> LoadTXT of a grid with one time point is reported under its own name "
+    "(GeoGrid.save_txt_LoadTXT/single-time-point) and exercised by two cases per run only",
+)
 RULE = ("one evaluation = one construction path of one case compared on all observables with the "
         "input-only oracle; distinct key = (path, N, directed, adjacency, weights); non-trivial = "
-        "graph has a link or explicit node weights (spatial cases always).")
+        "graph has a link or explicit node weights (spatial cases always); in the persistence block one "
+        "evaluation = one (saving class, loading class, format or mutator) round trip of one case.")
 
 
 def main():
     args = parse_args()
     rep = Report("C05", args, SCOPE, RULE)
+    for text in SKIPPED:
+        rep.skip(text)
     try:
         import pyunicorn.core.network   # noqa
         import igraph                   # noqa
